@@ -92,3 +92,39 @@ def in_flight_removed_from_either_path(ctx, rule, instance):
     uses_cur = any(any(e[1] == 'path' for e in rv[2][1] if isinstance(e, list) and e[0] == 'f') for i, j, pl, rv, line in rif.assigns() if rv[0] == 'ref')
     ctx.check(uses_prev and uses_cur, rule, instance, rif, rif.where(), 'visits self.path then self.prev_path',
               'remove_in_flight no longer visits the previous path: packets sent before a migration are never subtracted from its in-flight counters')
+
+
+def reset_final_size_guarded(ctx, rule, instance):
+    """StreamsState::received_reset computes `final_offset - end` and `final_offset - bytes_read` with plain (checked)
+    subtraction, relying on Recv::reset having refused `final_offset < end` (FINAL_SIZE_ERROR).  The guard must exist,
+    always reach the error, and must not be conditional on anything but the final size being unknown (in particular
+    not on `stopped`): otherwise a hostile RESET_STREAM panics the connection task (debug) or wraps the
+    connection-level flow-control counter (release)."""
+    F = ctx.facts
+    rr = ctx.pfn('StreamsState::received_reset')
+    n = 0
+    d = describer(F, rr)
+    for i, blk in enumerate(rr.blocks):
+        t = blk['t']
+        if i in rr.live_blocks() and not blk['c'] and t[0] == 'assert' and t[3] == 'overflow:Sub':
+            st = [x for x in blk['s'] if x[0] == '=' and x[2][0] == 'bin' and x[2][1].startswith('Sub')]
+            if st and D.has_field(d.operand(st[-1][2][2], i, blk['s'].index(st[-1]), 0), 'final_offset'):
+                n += 1
+    ctx.floor(rule, instance + '_dependent_subtractions', n, 2)
+    rs = ctx.pfn('Recv::reset')
+    st = [w.bb for w in field_writes(F, 'recv::Recv', 'state', crate='quinn_proto') if F.root_of(w.body).id == rs.id and w.kind == 'assign']
+
+    def rel(o, a, b):
+        return o == 'Lt' and D.has_param(a, name='final_offset') and D.has_field(b, 'end')
+    guard_error(ctx, rule, instance, rs, rel, code='FINAL_SIZE_ERROR', protect=st, what='end > final_offset')
+    for br, truth, tgt in guard_edges(ctx, rs, rel):
+        cond = []
+        for b2 in branches(F, rs):
+            if b2.bb == br.bb or not rs.dominates(b2.bb, br.bb):
+                continue
+            if any(br.bb not in rs.reachable_from(t, avoid=[b2.bb]) for v, t in b2.edges):
+                # a condition that can skip the guard: only `self.final_offset()` being Some (then equality is required) is accepted
+                if not (b2.desc[0] == 'discr' and D.has_call(b2.desc, 'Recv::final_offset')):
+                    cond.append(D.render(b2.desc)[:60])
+        ctx.check(not cond, rule, instance + '_unconditional', rs, br.where(), 'skipped only when the final size is already known (then equality is enforced)',
+                  'the lower-bound check on the final size can be skipped under %s' % cond)
